@@ -11,7 +11,8 @@ CASE_WALL_S = 30
 ID = "C07"
 TIERS = {"quick": dict(examples=4000), "thorough": dict(examples=120000)}
 RULE = ("Real TransitSender.connect() and TransitReceiver.connect() on the simulated network: listener on/off per "
-        "side, 0-2 unreachable hints each way, the real transit relay on/off, 0-3 rogues that dial a listener or "
+        "side, 0-2 unreachable hints each way, the real transit relay on/off (one shared relay, or a different one "
+        "per side), optionally an earlier Transit pair of the same process keyed differently, 0-3 rogues that dial a listener or "
         "sit behind a hint (silent; random bytes; correct handshake prefix then garbage or nothing; handshake "
         "made with another key; the correct peer handshake without 'go'; 'nevermind'; relay token + junk), an "
         "optional 'no honest path' mode (every honest attempt refused, or - through a fake Tor manager - stalled forever), optionally connect() called late on one "
@@ -37,6 +38,8 @@ def cases(draw, tier="quick"):
     c["nl_s"] = draw(st.sampled_from([False, False, True]))
     c["nl_r"] = draw(st.sampled_from([False, False, True]))
     c["relay"] = draw(st.sampled_from([False, True]))
+    # the two sides are configured with different relays: each then has two relay hints of equal priority
+    c["relay2"] = c["relay"] and draw(st.booleans())
     if c["nl_s"] and c["nl_r"] and not c["relay"]:
         c["nl_r"] = False
     c["bogus"] = [draw(st.integers(0, 2)), draw(st.integers(0, 2))]
@@ -51,6 +54,8 @@ def cases(draw, tier="quick"):
     if c["tor"] == "pass":
         c["relay"] = True
     c["late"] = draw(st.sampled_from([None, None, "s", "r"]))
+    # this process has run an earlier transfer under another transit key (the key the "wrongkey" rogues hold)
+    c["prior"] = draw(st.booleans())
     # "tape": connect() is called at a tape-chosen moment; "after": only once everything the early
     # side can do on its own has happened (the peer may have completed a handshake by then)
     c["late_when"] = draw(st.sampled_from(["tape", "after"]))
@@ -159,8 +164,21 @@ def run_case(c):
         tor_s = tor_r = None
         if c.get("tor"):
             tor_s, tor_r = FakeTor(ns, c["tor"] == "stall"), FakeTor(nr, c["tor"] == "stall")
+        prior_done = None
+        if c.get("prior"):
+            # an earlier Transit pair of this process, keyed differently, got as far as producing its handshakes
+            try:
+                for cls in (TransitSender, TransitReceiver):
+                    o = cls(None, no_listen=True, reactor=NodeReactor(W, "P", "10.0.0.7"))
+                    o.set_transit_key(b"\x42" * 32)
+                    o._send_this()
+                    o._expect_this()
+                prior_done = True
+            except AttributeError:
+                prior_done = False       # cannot be staged on this tree: the case runs without it
         s = TransitSender(relay_url, no_listen=c["nl_s"], tor=tor_s, reactor=ns)
-        r = TransitReceiver(relay_url, no_listen=c["nl_r"], tor=tor_r, reactor=nr)
+        relay_url_r = W.start_relay(port=4002, ip="10.0.0.201") if c.get("relay2") else relay_url
+        r = TransitReceiver(relay_url_r, no_listen=c["nl_r"], tor=tor_r, reactor=nr)
         hs, hr = [], []
         s.get_connection_hints().addCallback(hs.extend)
         r.get_connection_hints().addCallback(hr.extend)
@@ -388,7 +406,8 @@ def run_case(c):
                             exc=exc, frame=frame)
                 break
         res.nontrivial = established[0] >= 2 or bool(c["rogues"]) or nopath
-        res.features = dict(nl="%d%d" % (c["nl_s"], c["nl_r"]), relay=c["relay"], rogues=len(c["rogues"]), nopath=nopath,
+        res.features = dict(nl="%d%d" % (c["nl_s"], c["nl_r"]), relay=("two" if c.get("relay2") else c["relay"]), rogues=len(c["rogues"]), nopath=nopath,
+                            prior=str(prior_done),
                             late=c["late"] or "-", tor=c.get("tor") or "-", est=common.bucket(established[0], [0, 1, 2, 4]),
                             probes=len(probes), ok=ok(S) and ok(R))
         res.trace = ",".join(W.trace[:300])
